@@ -1,5 +1,6 @@
 import Stackage.Lemmas.Push
 import Stackage.Model.Policy
+import Stackage.Lemmas.Unmarshal
 
 /-!
 # C14 — user-supplied policies decide, exactly as documented (push policy part)
@@ -163,6 +164,121 @@ theorem C14_marshal (K : Closures) (interp : Nat → Val → Option Nat) (s : St
     (hp : s.cfg.maf = some p) : s.MarshalP K interp (x :: xs) = (s, K.marshal p) := by
   unfold Stk.MarshalP; rw [hp]
 
+/-! ## Unmarshalers on nested nodes
+
+`Stack.Unmarshal()` without a closure of its own walks its elements (`unmarshalElemsK`): a nested Stack, in any form, is
+walked with the private default again - its Unmarshaler is **not** consulted; a nested Condition, in any form, goes through
+the public `Condition.Unmarshal()` - its Unmarshaler **is** consulted; a Stack held by a Condition goes through the public
+`Stack.Unmarshal()` - its Unmarshaler **is** consulted. An error returned by a consulted closure (at any depth) ends the
+walk: the entries collected before the failing element and that error are the result. -/
+
+/-- bridge: no Unmarshaler anywhere - the closure-free model, no error -/
+theorem C14_unmarshal_noUmf (K : Closures) (s : Stk) (h : s.cfg.umf = none) (hx : noUmfList s.xs = true) :
+    s.UnmarshalP K = (s.unmarshal, none) := by
+  unfold Stk.UnmarshalP Stk.unmarshal; rw [h]; simp only [unmarshalElemsK_noUmf K s.xs hx]
+
+theorem C14_unmarshal_cond_noUmf (K : Closures) (c : Cnd) (h : c.cfg.umf = none) (hx : noUmf c.ex = true) :
+    c.UnmarshalP K = ([strV conditionLabel, strV c.kw, .opv c.op, unmarshalExpr c.ex], none) := by
+  unfold Cnd.UnmarshalP; rw [h]; simp only [unmarshalExprK_noUmf K c.ex hx]
+
+/-- (a) what a directly nested Stack contributes does not depend on its own Unmarshaler … -/
+theorem C14_unmarshal_nested_stack_elem (K : Closures) (f : Form) (c : Cfg) (xs : List Val) (u : Option Nat) :
+    unmarshalElemK K (.stk f { c with umf := u } xs) = unmarshalElemK K (.stk f c xs) := by
+  simp only [unmarshalElemK]; rfl
+
+/-- … so **the result of the parent's `Unmarshal()` is the same whatever Unmarshaler the nested Stack carries** (installed,
+replaced or removed; the nested Stack in any form, at any position; the parent with or without a closure of its own) -/
+theorem C14_unmarshal_nested_stack_ignored (K : Closures) (s : Stk) (pre post : List Val) (f : Form) (c : Cfg)
+    (ys : List Val) (u : Option Nat) :
+    ({ s with xs := pre ++ .stk f { c with umf := u } ys :: post } : Stk).UnmarshalP K =
+    ({ s with xs := pre ++ .stk f c ys :: post } : Stk).UnmarshalP K := by
+  unfold Stk.UnmarshalP
+  simp only [unmarshalElemsK_congr K _ _ post (C14_unmarshal_nested_stack_elem K f c ys u) pre]
+
+/-- (b) a nested Condition with an Unmarshaler contributes the closure's list, and the closure's error … -/
+theorem C14_unmarshal_nested_cond_elem (K : Closures) (f : Form) (c : Cfg) (kw : Text) (op : Op) (ex : Val) (p : Nat)
+    (hp : c.umf = some p) : unmarshalElemK K (.cnd f c kw op ex) = (.anys (K.unmarshal p).1, (K.unmarshal p).2) := by
+  simp only [unmarshalElemK, hp]
+
+/-- … so **the parent's result holds, at the Condition's position, `.anys (K.unmarshal p).1`** (when the walk gets there and the
+closure reports no error), between the entries of what precedes and what follows -/
+theorem C14_unmarshal_nested_cond (K : Closures) (s : Stk) (pre post : List Val) (f : Form) (c : Cfg) (kw : Text) (op : Op)
+    (ex : Val) (p : Nat) (hs : s.cfg.umf = none) (hxs : s.xs = pre ++ .cnd f c kw op ex :: post) (hp : c.umf = some p)
+    (hpre : (unmarshalElemsK K pre).2 = none) (hok : (K.unmarshal p).2 = none) :
+    s.UnmarshalP K = (strV s.cfg.kindText :: ((unmarshalElemsK K pre).1 ++ .anys (K.unmarshal p).1 :: (unmarshalElemsK K post).1),
+      (unmarshalElemsK K post).2) := by
+  have hx : (unmarshalElemK K (.cnd f c kw op ex)).2 = none := by rw [C14_unmarshal_nested_cond_elem K f c kw op ex p hp]; exact hok
+  unfold Stk.UnmarshalP
+  rw [hs, hxs, unmarshalElemsK_append_ok K _ pre hpre, unmarshalElemsK_cons_ok K _ post hx,
+    C14_unmarshal_nested_cond_elem K f c kw op ex p hp]
+
+/-- the position, spelled out: entry `pre.length + 1` of the result (entry 0 is the label) -/
+theorem C14_unmarshal_nested_cond_entry (K : Closures) (s : Stk) (pre post : List Val) (f : Form) (c : Cfg) (kw : Text) (op : Op)
+    (ex : Val) (p : Nat) (hs : s.cfg.umf = none) (hxs : s.xs = pre ++ .cnd f c kw op ex :: post) (hp : c.umf = some p)
+    (hpre : (unmarshalElemsK K pre).2 = none) (hok : (K.unmarshal p).2 = none) :
+    (s.UnmarshalP K).1[pre.length + 1]? = some (.anys (K.unmarshal p).1) := by
+  rw [C14_unmarshal_nested_cond K s pre post f c kw op ex p hs hxs hp hpre hok]
+  have hl := unmarshalElemsK_length K pre hpre
+  simp only [List.getElem?_cons_succ]
+  rw [List.getElem?_append_right (by omega), hl]
+  simp
+
+/-- (c) a Stack held by a Condition, in any form, with an Unmarshaler: **the Condition's row carries the closure's list as its
+fourth entry, and the Condition's `Unmarshal()` returns the closure's error with the row** -/
+theorem C14_unmarshal_nested_held_stack (K : Closures) (c : Cnd) (f : Form) (sc : Cfg) (xs : List Val) (p : Nat)
+    (hc : c.cfg.umf = none) (hex : c.ex = .stk f sc xs) (hp : sc.umf = some p) :
+    c.UnmarshalP K = ([strV conditionLabel, strV c.kw, .opv c.op, .anys (K.unmarshal p).1], (K.unmarshal p).2) := by
+  unfold Cnd.UnmarshalP; rw [hc, hex]; simp only [unmarshalExprK, hp]
+
+/-- … also when that Condition is itself an element of a Stack being unmarshalled -/
+theorem C14_unmarshal_nested_held_stack_elem (K : Closures) (f f' : Form) (c sc : Cfg) (kw : Text) (op : Op) (xs : List Val)
+    (p : Nat) (hc : c.umf = none) (hp : sc.umf = some p) :
+    unmarshalElemK K (.cnd f c kw op (.stk f' sc xs)) =
+      (.anys [strV conditionLabel, strV kw, .opv op, .anys (K.unmarshal p).1], (K.unmarshal p).2) := by
+  simp only [unmarshalElemK, hc, unmarshalExprK, hp]
+
+/-- (d) **error propagation**: when the element at position `pre.length` reports an error (its own closure's, or one from
+deeper inside it), the parent's result is the label and the entries of `pre` - it ends before that element's entry - and the
+error is that error; nothing behind it is visited -/
+theorem C14_unmarshal_nested_error (K : Closures) (s : Stk) (pre post : List Val) (x : Val) (e : Nat) (hs : s.cfg.umf = none)
+    (hxs : s.xs = pre ++ x :: post) (hpre : (unmarshalElemsK K pre).2 = none) (hx : (unmarshalElemK K x).2 = some e) :
+    s.UnmarshalP K = (strV s.cfg.kindText :: (unmarshalElemsK K pre).1, some e) ∧
+    (s.UnmarshalP K).1.length = pre.length + 1 := by
+  have h : s.UnmarshalP K = (strV s.cfg.kindText :: (unmarshalElemsK K pre).1, some e) := by
+    unfold Stk.UnmarshalP
+    rw [hs, hxs, unmarshalElemsK_append_ok K _ pre hpre, unmarshalElemsK_cons_err K x post e hx]
+    simp
+  refine ⟨h, ?_⟩
+  rw [h]; simp only [List.length_cons, unmarshalElemsK_length K pre hpre]
+
+/-- the error of a nested Condition's Unmarshaler is such an error … -/
+theorem C14_unmarshal_nested_error_cond (K : Closures) (f : Form) (c : Cfg) (kw : Text) (op : Op) (ex : Val) (p e : Nat)
+    (hp : c.umf = some p) (he : (K.unmarshal p).2 = some e) : (unmarshalElemK K (.cnd f c kw op ex)).2 = some e := by
+  rw [C14_unmarshal_nested_cond_elem K f c kw op ex p hp]; exact he
+
+/-- … so is the error of the Unmarshaler of a Stack held by a nested Condition … -/
+theorem C14_unmarshal_nested_error_held (K : Closures) (f f' : Form) (c sc : Cfg) (kw : Text) (op : Op) (xs : List Val) (p e : Nat)
+    (hc : c.umf = none) (hp : sc.umf = some p) (he : (K.unmarshal p).2 = some e) :
+    (unmarshalElemK K (.cnd f c kw op (.stk f' sc xs))).2 = some e := by
+  rw [C14_unmarshal_nested_held_stack_elem K f f' c sc kw op xs p hc hp]; exact he
+
+/-- … and an error raised inside a nested Stack is the nested Stack's error (it travels up through every level of Stack nesting) -/
+theorem C14_unmarshal_nested_error_up (K : Closures) (f : Form) (c : Cfg) (ys : List Val) :
+    (unmarshalElemK K (.stk f c ys)).2 = (unmarshalElemsK K ys).2 := by
+  simp only [unmarshalElemK]
+
+/-- non-vacuity: the four situations in one tree, with a closure environment in which closure 3 fails -/
+example :
+    let K : Closures := { unmarshal := fun p => ([.leaf (.int p)], if p == 3 then some 7 else none) }
+    let t : Stk := ⟨{ kind := 1 }, [.stk .native { kind := 2, umf := some 1 } [.leaf (.str ['a'])],
+        .cnd .native { kind := 5, umf := some 2 } ['k'] (.cmp 1) (.leaf (.int 1)),
+        .stk .alias { kind := 2 } [.cnd .ptr { kind := 5 } ['k'] (.cmp 1) (.stk .native { kind := 4, umf := some 3 } [.leaf (.int 1)])],
+        .leaf (.str ['z'])]⟩
+    (t.UnmarshalP K).2 = some 7 ∧ (t.UnmarshalP K).1.length = 3 ∧
+    (match (t.UnmarshalP K).1 with
+     | [_, .anys [_, .leaf (.str ['a'])], .anys [.leaf (.int 2)]] => true
+     | _ => false) = true := by decide
+
 /-- **Equality.** With an equality closure installed, `IsEqual` against a Stack (any form) returns the closure's result -/
 theorem C14_equal (hook : EqHook) (same : Bool) (f f' : Form) (c c' : Cfg) (xs ys : List Val) (p : Nat) (hp : c.eqf = some p) :
     Val.IsEqual hook same (.stk f c xs) (.stk f' c' ys) = .ok (hook p (.stk .native c xs) (.stk f' c' ys)) := by
@@ -179,9 +295,16 @@ theorem C14_remove_presentation (K : Closures) (s : Stk) (hr : s.readOnly = fals
   have : (s.cfg.kind == Gen.kind_basic) = false := by simpa using hk
   simp [hr, this]
 
+/-- after removal `Unmarshal()` is the built-in walk again (label, then the element loop, which still honours the
+Unmarshalers of nested Conditions and Condition-held Stacks) … -/
 theorem C14_remove_unmarshaler (K : Closures) (s : Stk) (hr : s.readOnly = false) :
+    (s.setUmf none).UnmarshalP K = (strV s.cfg.kindText :: (unmarshalElemsK K s.xs).1, (unmarshalElemsK K s.xs).2) := by
+  unfold Stk.setUmf Stk.UnmarshalP; simp [hr]; rfl
+
+/-- … which on a content without any Unmarshaler is the closure-free `Stk.unmarshal`, without error -/
+theorem C14_remove_unmarshaler_plain (K : Closures) (s : Stk) (hr : s.readOnly = false) (hx : noUmfList s.xs = true) :
     (s.setUmf none).UnmarshalP K = (s.unmarshal, none) := by
-  unfold Stk.setUmf Stk.UnmarshalP; simp [hr, Stk.unmarshal]; rfl
+  rw [C14_remove_unmarshaler K s hr, unmarshalElemsK_noUmf K s.xs hx]; rfl
 
 /-- **BASIC** refuses a presentation policy, records an error and renders as the empty string -/
 theorem C14_basic (K : Closures) (s : Stk) (p : Option Nat) (hr : s.readOnly = false) (hk : s.cfg.kind = Gen.kind_basic) :
